@@ -795,7 +795,7 @@ BlocksOf(n, fs, ts) ==
 \* WHEN the spec is evaluated), and blocks of two-name specs with implicit repetition of the whole expression list
 \* (held back - FALSE - until the repair of iota as a running counter and of the implicit repetition of
 \* two-name specs is in /repo: F-C03-12)
-ExtraBlocksOn == FALSE
+ExtraBlocksOn == TRUE
 FwdForms == {FormToks("fwd", 0, 0), FormToks("fwdl", 0, 0), FormToks("iota", 0, 0)}
 FwdBlocks ==
     {<<Spec(FALSE, FALSE, t, h)>> \o tl : t \in RedTyps, h \in FwdForms \ {FormToks("iota", 0, 0)},
